@@ -285,7 +285,8 @@ fn gen_history(rng: &mut Rng, len: usize, nav: bool) -> String {
                 format!("tl{r},{c}")
             }
             30 => {
-                let v = match rng.below(8) { 0 => 0, 1 => 1, 2 => 24 + rng.below(3) as i64, 3 => 89 + rng.below(3) as i64, 4 => -1, 5 => 50 + rng.below(200) as i64, _ => 100 + rng.below(2000) as i64 };
+                // incl. exact multiples of the row height / column width (the `>` vs `>=` boundaries of the scroll tests)
+                let v = match rng.below(10) { 0 => 0, 1 => 1, 2 => 24 + rng.below(3) as i64, 3 => 89 + rng.below(3) as i64, 4 => -1, 5 => 50 + rng.below(200) as i64, 6 => 25 * (1 + rng.below(8) as i64), 7 => 90 * (1 + rng.below(5) as i64), _ => 100 + rng.below(2000) as i64 };
                 if rng.chance(1, 2) { format!("ww{v}") } else { format!("wh{v}") }
             }
             31 | 32 | 33 | 34 | 35 | 36 => {
@@ -416,6 +417,10 @@ fn nav_corpus() -> Vec<&'static str> {
         "sr1,1,1048576,1;xD;xU;xR;xR;xL;sc2,2;sr2,1,2,16384;xR;xD;xD;xU",
         "ww100;wh60;sc2,2;xR;xR;xR;xD;xD;xD;tl9,9;xL;xL;xL;xL;xU;xU;xU;xU",
         "sc5,5;ar0,0;xR;xL;xU;xD",
+        // window an exact multiple of the row height / column width
+        "wh100;xD;xD;xD;xD;xD;aD;aD;aD;aD;pd;pu",
+        "ww270;xR;xR;xR;xR;aR;aR;aR;aR;eR;eL",
+        "wh75;ww180;sc1,1;ar3,2;ar4,3;ar5,4;inS,9,9;eD;eR",
     ]
 }
 
